@@ -48,7 +48,7 @@ class C03(Prop):
     assumptions = ["randbelow(i+1) results are independent and uniform (property of the Mersenne Twister; nothing here tests a PRNG)",
                    "random.shuffle body is the transcribed CPython 3.12 one (its source is checked against the transcription on every run)"]
     model_scope = "modelled: random.Random.shuffle (stdlib), stub construction, grouping; the RNG itself is assumed uniform"
-    budgets = {"quick": 60, "thorough": 600}
+    budgets = {"quick": 60, "thorough": 2400}
     search_budget = {"quick": 150, "thorough": 1000}
 
     def gen(self, rng, i, tier):
